@@ -60,7 +60,13 @@ class C08(Prop):
             'In addition the main line of the history itself crashes at generated points (about a third of the ops, '
             'biased to the window between the two renames and to consecutive crashes) and goes on from the restarted '
             'driver. A separate stream loads hand-made directory layouts (missing/empty/partial/complete data file x '
-            'missing/empty/partial/complete backup). Non-trivial = at least one main-line crash or one operation with '
+            'missing/empty/partial/complete backup). A third stream (7 %) checks event-loop atomicity: on a collection of '
+            '100-300 records a multi-record update/remove by a non-id filter is started CONCURRENTLY (asyncio tasks of one '
+            'loop) with 1-2 other modifying operations; every step of every save of the whole concurrent execution and '
+            'sampled byte prefixes of each write are crash points; the restarted store must be a whole-operation state '
+            '(the result of applying some of the operations, each completely, in some order - computed by running every '
+            'order serially on an in-memory driver) that contains every operation acknowledged before the crash. '
+            'Non-trivial = at least one main-line crash or one operation with '
             'a backup step; distinct = distinct (configuration, per-op step list, main-line crash outcomes).')
     CORRESPONDENCE = ('JsonFile.saveSteps / crash / load / Sys.step <-> JSONDriver._save / process death inside it / '
                       'JSONDriver.__init__ -> _load (drivers/persist/json.py)')
@@ -68,7 +74,9 @@ class C08(Prop):
                'semantics re-implemented), a process crash loses no completed system call; rename/replace are atomic',
                'the live in-memory driver and a driver reloaded from its files are interchangeable before an '
                'operation (checked by the clean-restart oracle after every operation)']
-    ASSUMPTIONS = ['process-crash semantics only: no power loss, no write reordering, single writer',
+    ASSUMPTIONS = ['process-crash semantics only: no power loss, no write reordering, single writer process',
+                   'A (event-loop atomicity): no suspension point inside a modifying driver operation between its first '
+                   'mutation and the end of its save - checked on the real driver by the concurrent-batch stream',
                    'P: no proper prefix of a serialised document is accepted by json_utils.loads, and loads(b"") '
                    'fails (validated on every serialised document of the run)']
 
